@@ -25,6 +25,7 @@
  */
 
 #include <stdlib.h>
+#include <limits.h>
 #include <stdint.h>
 #include <stdbool.h>
 #include <string.h>
@@ -144,6 +145,14 @@ bool index_read(zckCtx *zck, char *data, size_t size, size_t max_length) {
            (zck->comp.type == ZCK_COMP_NONE &&
             new->comp_length != new->length)) {
             set_fatal_error(zck, "Chunk %i has inconsistent sizes", count);
+            return false;
+        }
+        /* Sizes and offsets are reported as ssize_t, so anything that doesn't
+         * fit (including the end offset of this chunk) can't be represented */
+        size_t max_size = SSIZE_MAX - (zck->lead_size + zck->header_length);
+        if(new->length > SSIZE_MAX || new->comp_length > max_size ||
+           idx_loc > max_size - new->comp_length) {
+            set_fatal_error(zck, "Chunk %i is too large", count);
             return false;
         }
         new->zck = zck;
